@@ -30,6 +30,35 @@ Lemma amem_get {V} (m : amap V) k : amem m k = true -> exists v, aget m k = Some
 Proof. unfold amem. destruct (aget m k) as [v|]; [eauto|discriminate]. Qed.
 
 (* ---------------- add_appointment ---------------- *)
+(* ---- the owner's row at store time ------------------------------------------------------------
+   Watcher::store_appointment answers UnknownUser when the INSERT fails on the foreign key.  A user the
+   gatekeeper knows has its row (memory = table users in every reachable state), and the charge keeps it. *)
+(* user_row_ok is defined next to w_store_ok in Tower.v *)
+
+Lemma amem_update_user (m : list (N * uinfo)) u ui v :
+  amem (map (fun r => if N.eqb (fst r) u then (u, ui) else r) m) v = amem m v.
+Proof.
+  unfold amem. induction m as [|[k x] m IH]; [reflexivity|]. cbn [map fst aget].
+  destruct (N.eqb k u) eqn:E; cbn [aget].
+  - apply N.eqb_eq in E. subst k. destruct (N.eqb v u); [reflexivity|exact IH].
+  - destruct (N.eqb v k); [reflexivity|exact IH].
+Qed.
+
+Lemma store_ok_after_charge t u ui' a :
+  amem (db_users t) u = true -> a_user a = u -> w_store_ok (p_set_user t u ui') a = true.
+Proof.
+  intros Hm Ha. unfold w_store_ok. destruct (find_app _ _); [reflexivity|].
+  unfold p_set_user, db_update_user. cbn [db_users set_db_users gk_put set_gk_users]. rewrite Ha, amem_update_user. exact Hm.
+Qed.
+
+Lemma stored_flag_true (c : txindex N) loc b t1 a :
+  w_store_ok t1 a = true ->
+  match ti_get c loc with
+  | Some dispute => match decrypt b dispute with Some _ => w_store_ok t1 a | None => true end
+  | None => w_store_ok t1 a
+  end = true.
+Proof. intros H. destruct (ti_get c loc) as [d|]; [destruct (decrypt b d)|]; auto. Qed.
+
 Theorem add_success_authentic le t sc signer loc b delay sig t' st sg sl e :
   step le t (OAdd signer loc b delay sig) sc = (t', OAddRes (AddOk st sg sl e)) ->
   authentic t signer.
@@ -54,7 +83,7 @@ Proof.
     + destruct (N.leb (u_expiry ui) (gk_height (fresh t))) eqn:El.
       * eexists. split; [reflexivity|]. right. left. eauto.
       * exfalso. apply Hn. exists u, ui. repeat split; auto. apply N.leb_gt in El. exact El.
-    + eexists. split; [reflexivity|]. right. right. eauto.
+    + eexists. split; [reflexivity|]. left. reflexivity.
   - eexists. split; [reflexivity|]. left. reflexivity.
 Qed.
 
@@ -89,7 +118,7 @@ Proof.
   cbn [step wrap]. unfold w_get_appointment. change (set_rpc_log t []) with (fresh t).
   destruct (authenticate (fresh t) signer) as [u|] eqn:Ea; [|cbn; intros H; inversion H; auto].
   apply authenticate_Some in Ea. destruct Ea as [Hs _].
-  destruct (gk_get (fresh t) u) as [ui|] eqn:Eg; [|cbn; intros H; inversion H].
+  destruct (gk_get (fresh t) u) as [ui|] eqn:Eg; [|cbn; intros H; inversion H; left; left; reflexivity].
   destruct (N.leb (u_expiry ui) (gk_height (fresh t))) eqn:El; [cbn; intros H; inversion H; left; right; eauto|].
   intros _. right. exists u, ui. repeat split; auto. apply N.leb_gt in El. exact El.
 Qed.
@@ -106,7 +135,7 @@ Proof.
   cbn [step wrap]. unfold w_get_appointment. change (set_rpc_log t []) with (fresh t).
   destruct (authenticate (fresh t) (Some u)) as [v|] eqn:Ea; [|cbn; intros H; inversion H; exact I].
   apply authenticate_Some in Ea. destruct Ea as [Hs _]. inversion Hs. subst v.
-  destruct (gk_get (fresh t) u) as [ui|]; [|cbn; intros H; inversion H].
+  destruct (gk_get (fresh t) u) as [ui|]; [|cbn; intros H; inversion H; exact I].
   destruct (N.leb (u_expiry ui) (gk_height (fresh t))); [cbn; intros H; inversion H; exact I|].
   change (db_trks (fresh t)) with (db_trks t). change (db_apps (fresh t)) with (db_apps t).
   destruct (find_trk (db_trks t) (loc, u)) as [k|] eqn:Ek, (find_app (db_apps t) (loc, u)) as [a|] eqn:Eap;
